@@ -40,6 +40,7 @@ fn finish(mut w: World, trace: Trace) -> RunOutcome {
         let _ = seam::drain_events();
     }
     w.stats.faults_fired = tok::faults_fired();
+    w.stats.trace_ticks = tok::ticks();
     RunOutcome {
         trace,
         viol: w.viol.take(),
